@@ -1,5 +1,5 @@
 /-
-  C18 (first two clauses) — hypergraph morphisms.
+  C18 — hypergraph morphisms.
 
   "A pair of maps on nodes and on hyperedges between two hypergraphs is accepted as a morphism iff
    it preserves node labels and edge labels and sends the ordered source list and the ordered
@@ -13,7 +13,7 @@
   `m.w.source = |source nodes|` is forced, likewise for `x`); a domain-size mismatch is therefore
   reported as `NotNaturalW` / `NotNaturalX`.
 
-  The convexity test is left as a statement (`convex_statement`) — it needs the Kahn/BFS library.
+  Third clause (convexity): `isConvexSubgraph_spec`, for every lawful backend.
 -/
 import OHVerif.Lemmas.Predicates
 import OHVerif.Spec.Lawful
@@ -306,16 +306,30 @@ example : mBadW.validate = .ok (.error .notNaturalW) := by rfl
 example : mShort.validate = .ok (.error .notNaturalW) := by rfl
 example : mTypeX.validate = .ok (.error .typeMismatchX) := by rfl
 
-/-! ## convexity (statement only) -/
+/-! ## convexity -/
 
-/-- FULL statement of the convexity clause, NOT proved here (it needs the correctness of the
-    two-layer frontier search `convexLoop`, i.e. a BFS-reachability library over
-    `sparseRelativeIndegree`, for every lawful backend). -/
-def convex_statement : Prop :=
-  ∀ (O A : Type) (B : Backend) (m : HArrow O A), B.Lawful → Hyp m →
-    m.w.source = m.source.w.length → m.w.target = m.target.w.length →
-    m.x.source = m.source.x.length → m.x.target = m.target.x.length →
+/-- CONVEXITY.  For every lawful backend, on well-formed hypergraphs and a pair of maps typed
+    against them (domains and codomains of the right sizes — `validate` enforces exactly these),
+    `is_convex_subgraph` returns an answer (no panic — in particular the `2n + 2` round budget of
+    the search is never exhausted — and not `none`), and the answer is `true` iff both maps are
+    injective and no directed path of the target that uses at least one hyperedge outside the
+    image leads from an image node to an image node. -/
+theorem isConvexSubgraph_spec (B : Backend) (hB : B.Lawful) (m : HArrow O A) (h : Hyp m)
+    (h1 : m.w.source = m.source.w.length) (h2 : m.w.target = m.target.w.length)
+    (h3 : m.x.source = m.source.x.length) (h4 : m.x.target = m.target.x.length) :
     ∃ b, m.isConvexSubgraph B = .ok b ∧
-      (b = true ↔ Convex (plainOf m.source) (plainOf m.target) m.wFn m.xFn)
+      (b = true ↔ Convex (plainOf m.source) (plainOf m.target) m.wFn m.xFn) :=
+  HArrow.isConvexSubgraph_spec B hB m h.toWf h1 h2 h3 h4
+
+example : vecBackend.Lawful := vecBackend_lawful
+example : Hyp mOk ∧ mOk.w.source = mOk.source.w.length ∧ mOk.w.target = mOk.target.w.length ∧
+    mOk.x.source = mOk.source.x.length ∧ mOk.x.target = mOk.target.x.length := by
+  simp only [Hyp]; decide
+
+/-- the typing hypotheses are needed: with an edge map whose stated codomain is not the target's
+    edge count the re-indexing `map_indexes` is undefined and the `unwrap` panics -/
+example : Hyp mTypeX ∧
+    (∃ s, mTypeX.isConvexSubgraph vecBackend = .panic s) := by
+  refine ⟨by simp only [Hyp]; decide, "convex:unwrap-s-in", by rfl⟩
 
 end OH.C18
